@@ -26,6 +26,8 @@ class Prop(BaseProp):
     id = "C03"
     theorems = ["C03_rounds", "C03_seed_spec", "C03_master_spec", "C03_routes_agree", "C03_network_independent", "C03_extended_key_route"]
     exec_modules = ["Exec.C03"]
+    extra_modules = {"C03Src": ["C03_source_seed_is_model", "C03_source_seed_is_spec", "C03_source_translated"]}
+    pysem_funcs = ["bip39.bip39_seed_from_mnemonic"]
     exec_import = "From BHW Require Import Lib.Base Exec.Common Exec.Bip32E Exec.C03.\nFrom Coq Require Import String.\nOpen Scope string_scope."
     shard = 3
     rule = ("Seed: bip39_seed_from_mnemonic on ASCII, composed vs decomposed forms (e-acute vs e + combining acute), compatibility characters "
